@@ -118,6 +118,15 @@ def signable_case(rng, gpg: bool, stats: dict | None = None, states=None, npool=
     auth = [gen.key(i).hex for i in pool if rng.random() < 0.7]
     auth += [gen.key(i).hex for i in rng.sample(range(10, 14), rng.choice([0, 0, 1, 2]))]
     rng.shuffle(auth)
+    if rng.random() < 0.08:
+        # an authorized "key" that is 64 hex digits but no point of the curve (a placeholder such as ff..ff, a typo), with a well-formed entry filed under
+        # it: the entry is simply invalid, like any other that does not verify — it neither counts nor disturbs the ones that do
+        bogus = rng.choice(["ff" * 32, "02" + "00" * 31, "ee" * 32, "f" * 63 + "e"])
+        auth.insert(rng.randrange(len(auth) + 1), bogus)
+        env["signatures"][bogus] = ({"signature": "ab" * 64} if not gpg else {"other_headers": "04001608", "signature": "ab" * 64})
+        chosen[bogus] = "authorized-non-point-key"
+        if stats is not None:
+            stats["state:authorized-non-point-key"] = stats.get("state:authorized-non-point-key", 0) + 1
     if rng.random() < 0.05 and auth:
         auth.append(auth[0])  # a duplicate in the authorized list must not double count
     if rng.random() < 0.08:
